@@ -34,6 +34,7 @@ class Generic(Registry):
             CommandResult.BUSY: self.create_busy,
             CommandResult.DISCONNECTED: self.create_disconnected,
             CommandResult.WRONG_MODE: self.create_wrong_mode,
+            CommandResult.UNSUPPORTED_DOMAIN: self.create_unsupported_domain,
         }
 
         # Dispatch to our specific factory methods for command result.
